@@ -508,6 +508,36 @@ pub fn check_vtype(ctx: &Ctx, kind: Kind, out: &mut Outcome, q: u32, t: u32) {
     finish(ctx, "", acc, found, out, "vtype", &exec, &shrink);
 }
 
+/// C17 over conversions: the same ordered source converted twice gives the same cache
+pub fn check_conv_det(ctx: &Ctx, out: &mut Outcome, q: u32, t: u32) {
+    use crate::conv::*;
+    let th = ctx.tier == Tier::Thorough;
+    let strat = move || conv_strategy(th);
+    let exec = |c: &ConvCase| run_conv_det(c);
+    let hash_case = |c: &ConvCase| {
+        let mut d = Case { kind: Kind::Lru, cfg: Cfg::simple(1), keys: KeyMode::Tracked, alphabet: 0, ops: vec![] };
+        d.cfg.sketch_seed = Some(fnv64(serde_json::to_string(c).unwrap_or_default().as_bytes()));
+        d
+    };
+    journal_for(ctx, "convd");
+    let (acc, found) = run_engine(&strat, &exec, &hash_case, &ctx.id, ctx.seed, 0x7e8, ctx.workers, ctx.cases(q, t), &ctx.known);
+    let shrink = |c: &ConvCase, f: &dyn Fn(&ConvCase) -> bool| -> ConvCase {
+        let mut cur = c.clone();
+        let mut i = 0;
+        while i < cur.ops.len() {
+            let mut x = cur.clone();
+            x.ops.remove(i);
+            if f(&x) {
+                cur = x;
+            } else {
+                i += 1;
+            }
+        }
+        cur
+    };
+    finish(ctx, "", acc, found, out, "convd", &exec, &shrink);
+}
+
 /// C18 over conversions: every user-code call of (conversion, history, drop) is a crash point
 pub fn check_conv_faults(ctx: &Ctx, out: &mut Outcome, q: u32, t: u32) {
     use crate::conv::*;
@@ -546,6 +576,39 @@ pub fn check_conv_faults(ctx: &Ctx, out: &mut Outcome, q: u32, t: u32) {
         cur
     };
     finish(ctx, "", acc, found, out, "convf", &exec, &shrink);
+}
+
+/// C04 with key / value types of which only one has a destructor, all five cache kinds
+pub fn check_dropglue(ctx: &Ctx, out: &mut Outcome, q: u32, t: u32) {
+    use crate::vtype::*;
+    let th = ctx.tier == Tier::Thorough;
+    let strat = move || {
+        use proptest::strategy::Strategy;
+        proptest::strategy::Union::new(vec![vcase_strategy(Kind::Lru, th), vcase_strategy(Kind::Seg, th), vcase_strategy(Kind::TwoQ, th), vcase_strategy(Kind::Arc, th), vcase_strategy(Kind::Wtl, th)]).boxed()
+    };
+    let exec = |c: &VCase| run_dropglue(c);
+    let hash_case = |c: &VCase| {
+        let mut d = Case { kind: c.kind, cfg: Cfg::simple(c.a), keys: KeyMode::Tracked, alphabet: 0, ops: vec![] };
+        d.cfg.sketch_seed = Some(fnv64(serde_json::to_string(c).unwrap_or_default().as_bytes()));
+        d
+    };
+    journal_for(ctx, "dropglue");
+    let (acc, found) = run_engine(&strat, &exec, &hash_case, &ctx.id, ctx.seed, 0x7f0, ctx.workers, ctx.cases(q, t), &ctx.known);
+    let shrink = |c: &VCase, f: &dyn Fn(&VCase) -> bool| -> VCase {
+        let mut cur = c.clone();
+        let mut i = 0;
+        while i < cur.ops.len() {
+            let mut x = cur.clone();
+            x.ops.remove(i);
+            if f(&x) {
+                cur = x;
+            } else {
+                i += 1;
+            }
+        }
+        cur
+    };
+    finish(ctx, "", acc, found, out, "dropglue", &exec, &shrink);
 }
 
 pub fn check_sampled(ctx: &Ctx, prop: E7Prop, out: &mut Outcome, q: u32, t: u32, rule: &str) {
